@@ -440,6 +440,12 @@ class Interp:
             m(st, frame)
         except Unsupported as e:
             self.havoc_stmt(st, frame, str(e))
+        except (_Continue, _Break, _Return, PyRaise, CheckerError):
+            raise
+        except (AttributeError, TypeError, KeyError, IndexError, ValueError, z3.Z3Exception, RecursionError) as e:
+            # a construct the model does not cover surfaced as a Python error inside the generator: treated like
+            # any other unmodelled statement (havoc = sound over-approximation), and listed in the evidence
+            self.havoc_stmt(st, frame, f'internal {type(e).__name__}: {str(e)[:80]}')
 
     def havoc_stmt(self, st, frame, why):
         line = getattr(st, 'lineno', None)
